@@ -334,7 +334,7 @@ def obligations():
     for (s0, s1) in ((3, 1), (1, 4), (3, 3), (2, 0)):
         obs.append(Ob('h_index_ops', {'pin': {'n': 3, 's0': s0, 's1': s1}}, tiers=('quick',), timeout=900))
     obs += split(Ob('h_index_ops', {}, timeout=1500, tiers=('thorough',)), n=[3], s0=[0, 1, 2, 3, 4], s1=[0, 1, 2, 3, 4])
-    obs += sample(Ob('h_index_ops', {'pin': {'n': 4}}, timeout=1500, tiers=('thorough',)), 24, seed=41, s0=[0, 1, 2, 3, 4], s1=[0, 1, 2, 3, 4],
+    obs += sample(Ob('h_index_ops', {'pin': {'n': 4}}, timeout=900, tiers=('thorough',)), 10, seed=41, s0=[0, 1, 2, 3, 4], s1=[0, 1, 2, 3, 4],
                   s2=[0, 1, 2, 3, 4])
     obs += split(Ob('h_gate', {}, timeout=900, path_timeout=300, twins=['plain_kind_listed_first']), na=[1, 2])
     obs += split(Ob('h_gate', {}, timeout=900, path_timeout=300, tiers=('thorough',)), na=[0])
@@ -346,7 +346,7 @@ def obligations():
     # each -- is out of reach; the evidence lists the cells that were run)
     B = [False, True]
     for i, mode in enumerate(('ignored', 'temporary', 'permanent')):
-        obs += sample(Ob('h_index_rules', {'n': 2, 'errors': mode}, timeout=1200, tiers=('thorough',)), 28, seed=42 + i,
+        obs += sample(Ob('h_index_rules', {'n': 2, 'errors': mode}, timeout=900, tiers=('thorough',)), 16, seed=42 + i,
                       k0=list(range(7)), k1=list(range(7)), o0=B, m0=B, o1=B, del0=B)
     # (three objects per cell do not exhaust: > 1600 paths after 20 CPU-minutes for one fully pinned cell -- outside the claim)
     return obs
